@@ -267,8 +267,8 @@ fn drawables(tier: Tier) -> Vec<Drw> {
     let mut stys = styles(tier.pick(3, 5));
     for w in [6u32, 9] {
         for al in 0..3u8 {
-            stys.push(Sty { fill: false, stroke: true, w, al });
-            stys.push(Sty { fill: true, stroke: true, w, al });
+            stys.push(Sty { fill: false, stroke: true, w, al, same: false });
+            stys.push(Sty { fill: true, stroke: true, w, al, same: false });
         }
     }
     for s in &shapes {
@@ -281,7 +281,7 @@ fn drawables(tier: Tier) -> Vec<Drw> {
         for sw in 1..=9u32 {
             for al in 0..3u8 {
                 for fill in [false, true] {
-                    v.push(Drw::Prim { shape: Shape::Rect { x, y, w, h }, sty: Sty { fill, stroke: true, w: sw, al }, dotted: true });
+                    v.push(Drw::Prim { shape: Shape::Rect { x, y, w, h }, sty: Sty { fill, stroke: true, w: sw, al, same: false }, dotted: true });
                 }
             }
         }
